@@ -245,33 +245,33 @@ macro_rules! coerce_roundtrip {
 coerce_roundtrip!(io_coerce_bool, BOOL, Bool, bool, Bit, Bool, |x: bool| x as u64);
 // @unit id=io.coerce.sint props=C07,C03 tier=quick kind=proof fn=coerce_to_io,coerce_from_io,expected_size_for_type
 coerce_roundtrip!(io_coerce_sint, SINT, SInt, i8, Byte, Byte, |x: i8| x as u8 as u64);
-// @unit id=io.coerce.usint props=C07,C03 tier=thorough kind=proof fn=coerce_to_io,coerce_from_io,expected_size_for_type
+// @unit id=io.coerce.usint props=C07,C03 tier=quick kind=proof fn=coerce_to_io,coerce_from_io,expected_size_for_type
 coerce_roundtrip!(io_coerce_usint, USINT, USInt, u8, Byte, Byte, |x: u8| x as u64);
-// @unit id=io.coerce.byte props=C07,C03 tier=thorough kind=proof fn=coerce_to_io,coerce_from_io,expected_size_for_type
+// @unit id=io.coerce.byte props=C07,C03 tier=quick kind=proof fn=coerce_to_io,coerce_from_io,expected_size_for_type
 coerce_roundtrip!(io_coerce_byte, BYTE, Byte, u8, Byte, Byte, |x: u8| x as u64);
-// @unit id=io.coerce.char props=C07,C03 tier=thorough kind=proof fn=coerce_to_io,coerce_from_io,expected_size_for_type
+// @unit id=io.coerce.char props=C07,C03 tier=quick kind=proof fn=coerce_to_io,coerce_from_io,expected_size_for_type
 coerce_roundtrip!(io_coerce_char, CHAR, Char, u8, Byte, Byte, |x: u8| x as u64);
 // @unit id=io.coerce.int props=C07,C03 tier=quick kind=proof fn=coerce_to_io,coerce_from_io,expected_size_for_type
 coerce_roundtrip!(io_coerce_int, INT, Int, i16, Word, Word, |x: i16| x as u16 as u64);
-// @unit id=io.coerce.uint props=C07,C03 tier=thorough kind=proof fn=coerce_to_io,coerce_from_io,expected_size_for_type
+// @unit id=io.coerce.uint props=C07,C03 tier=quick kind=proof fn=coerce_to_io,coerce_from_io,expected_size_for_type
 coerce_roundtrip!(io_coerce_uint, UINT, UInt, u16, Word, Word, |x: u16| x as u64);
-// @unit id=io.coerce.word props=C07,C03 tier=thorough kind=proof fn=coerce_to_io,coerce_from_io,expected_size_for_type
+// @unit id=io.coerce.word props=C07,C03 tier=quick kind=proof fn=coerce_to_io,coerce_from_io,expected_size_for_type
 coerce_roundtrip!(io_coerce_word, WORD, Word, u16, Word, Word, |x: u16| x as u64);
-// @unit id=io.coerce.wchar props=C07,C03 tier=thorough kind=proof fn=coerce_to_io,coerce_from_io,expected_size_for_type
+// @unit id=io.coerce.wchar props=C07,C03 tier=quick kind=proof fn=coerce_to_io,coerce_from_io,expected_size_for_type
 coerce_roundtrip!(io_coerce_wchar, WCHAR, WChar, u16, Word, Word, |x: u16| x as u64);
 // @unit id=io.coerce.dint props=C07,C03 tier=quick kind=proof fn=coerce_to_io,coerce_from_io,expected_size_for_type
 coerce_roundtrip!(io_coerce_dint, DINT, DInt, i32, DWord, DWord, |x: i32| x as u32 as u64);
-// @unit id=io.coerce.udint props=C07,C03 tier=thorough kind=proof fn=coerce_to_io,coerce_from_io,expected_size_for_type
+// @unit id=io.coerce.udint props=C07,C03 tier=quick kind=proof fn=coerce_to_io,coerce_from_io,expected_size_for_type
 coerce_roundtrip!(io_coerce_udint, UDINT, UDInt, u32, DWord, DWord, |x: u32| x as u64);
-// @unit id=io.coerce.dword props=C07,C03 tier=thorough kind=proof fn=coerce_to_io,coerce_from_io,expected_size_for_type
+// @unit id=io.coerce.dword props=C07,C03 tier=quick kind=proof fn=coerce_to_io,coerce_from_io,expected_size_for_type
 coerce_roundtrip!(io_coerce_dword, DWORD, DWord, u32, DWord, DWord, |x: u32| x as u64);
 // @unit id=io.coerce.real props=C07,C03 tier=quick kind=proof fn=coerce_to_io,coerce_from_io,expected_size_for_type
 coerce_roundtrip!(io_coerce_real, REAL, Real, f32, DWord, DWord, |x: f32| x.to_bits() as u64);
 // @unit id=io.coerce.lint props=C07,C03 tier=quick kind=proof fn=coerce_to_io,coerce_from_io,expected_size_for_type
 coerce_roundtrip!(io_coerce_lint, LINT, LInt, i64, LWord, LWord, |x: i64| x as u64);
-// @unit id=io.coerce.ulint props=C07,C03 tier=thorough kind=proof fn=coerce_to_io,coerce_from_io,expected_size_for_type
+// @unit id=io.coerce.ulint props=C07,C03 tier=quick kind=proof fn=coerce_to_io,coerce_from_io,expected_size_for_type
 coerce_roundtrip!(io_coerce_ulint, ULINT, ULInt, u64, LWord, LWord, |x: u64| x);
-// @unit id=io.coerce.lword props=C07,C03 tier=thorough kind=proof fn=coerce_to_io,coerce_from_io,expected_size_for_type
+// @unit id=io.coerce.lword props=C07,C03 tier=quick kind=proof fn=coerce_to_io,coerce_from_io,expected_size_for_type
 coerce_roundtrip!(io_coerce_lword, LWORD, LWord, u64, LWord, LWord, |x: u64| x);
 // @unit id=io.coerce.lreal props=C07,C03 tier=quick kind=proof fn=coerce_to_io,coerce_from_io,expected_size_for_type
 coerce_roundtrip!(io_coerce_lreal, LREAL, LReal, f64, LWord, LWord, |x: f64| x.to_bits());
